@@ -312,14 +312,41 @@ def computeOn (cfg : EvCfg) (pre : Option String) (ss : List Sample) : List Metr
      | none => []
      | some f => f (batchTrue cfg ss) (batchPred cfg ss)))
 
-/-- **The evaluator accumulates.**  After `reset` / `compute` the buffers are empty; after any sequence of
-    (admissible) `step`s from there they hold the decoded labels and predictions of all the samples of all those
-    batches, in order; `compute` then returns the accuracy pair (number of samples whose decoded label equals the
-    decoded prediction, number of samples) over their concatenation — followed by the epoch callback's metrics on
-    the same concatenation, all prefixed — and empties the buffers; a `compute` on empty buffers reports
-    `frac 0 0`, i.e. NumPy's `0 / 0 = nan` (`toRat? = none`): it does not raise and it is no number. -/
+/-- the shape one sample must have, spelled out per mode -/
+theorem wellShaped_iff (mode : Mode) (s : Sample) :
+    wellShaped mode s = true ↔
+      (match mode with
+       | .binary => s.score.length = 1 ∧ s.label.length = 1
+       | .multiClass => 2 ≤ s.score.length ∧ s.label.length = 1
+       | .categorical => 2 ≤ s.score.length ∧ 2 ≤ s.label.length) := by
+  cases mode <;> simp [wellShaped]
+
+/-- **Admissibility does not depend on the batch size**: a batch goes through iff each of its samples is well
+    shaped — whether it holds no sample, one sample or many (fix a611d24; before it a batch of one sample raised). -/
+theorem stepOk_iff (mode : Mode) (b : List Sample) : stepOk mode b = true ↔ ∀ s ∈ b, wellShaped mode s = true := by
+  simp [stepOk]
+
+/-- a batch of ONE sample is admissible exactly when that sample is well shaped -/
+theorem stepOk_singleton (mode : Mode) (s : Sample) : stepOk mode [s] = wellShaped mode s := by
+  simp [stepOk]
+
+/-- well-shaped samples may be grouped into batches in any way whatsoever -/
+theorem grouping_admissible (mode : Mode) (bs : List (List Sample)) (hw : ∀ s ∈ bs.flatten, wellShaped mode s = true) :
+    ∀ b ∈ bs, stepOk mode b = true := by
+  intro b hb
+  rw [stepOk_iff]
+  intro s hs
+  exact hw s (List.mem_flatten.mpr ⟨b, hb, hs⟩)
+
+/-- **The evaluator accumulates.**  After `reset` / `compute` the buffers are empty; after any sequence of `step`s
+    from there — batches of ANY size, one-sample batches and empty batches included, as long as every sample is well
+    shaped — they hold the decoded labels and predictions of all the samples of all those batches, in order;
+    `compute` then returns the accuracy pair (number of samples whose decoded label equals the decoded prediction,
+    number of samples) over their concatenation — followed by the epoch callback's metrics on the same
+    concatenation, all prefixed — and empties the buffers; a `compute` on empty buffers reports `frac 0 0`, i.e.
+    NumPy's `0 / 0 = nan` (`toRat? = none`): it does not raise and it is no number. -/
 theorem evaluator_accumulates (cfg : EvCfg) (pre pre' : Option String) (st0 : EvState) (bs : List (List Sample))
-    (hok : ∀ b ∈ bs, stepOk cfg.mode b = true) :
+    (hw : ∀ s ∈ bs.flatten, wellShaped cfg.mode s = true) :
     (evCompute cfg st0 pre').1 = EvState.empty ∧ evReset st0 = EvState.empty ∧
     evSteps cfg pre EvState.empty bs = some ⟨batchTrue cfg bs.flatten, batchPred cfg bs.flatten⟩ ∧
     evCompute cfg ⟨batchTrue cfg bs.flatten, batchPred cfg bs.flatten⟩ pre' = (EvState.empty, computeOn cfg pre' bs.flatten) ∧
@@ -327,7 +354,7 @@ theorem evaluator_accumulates (cfg : EvCfg) (pre pre' : Option String) (st0 : Ev
     (cfg.accuracy = true → cfg.epochCb = none → computeOn cfg none [] = [("accuracy", MVal.frac 0 0)]) ∧
     (MVal.frac 0 0).toRat? = none := by
   refine ⟨rfl, rfl, ?_, ?_, ?_, ?_, rfl⟩
-  · have := evSteps_ok cfg pre bs EvState.empty hok
+  · have := evSteps_ok cfg pre bs EvState.empty (grouping_admissible cfg.mode bs hw)
     simpa [EvState.empty] using this
   · simp only [evCompute, evReset, computeMetrics, basicAccuracy, computeOn, countEq_batch, batchTrue_length]
     rfl
@@ -336,24 +363,57 @@ theorem evaluator_accumulates (cfg : EvCfg) (pre pre' : Option String) (st0 : Ev
   · intro ha hc
     simp [computeOn, ha, hc, prefixed, correctCount]
 
-/-- a batch the evaluator cannot take (one sample; or one score column in an arg-max mode): `step` raises and
-    the buffers are untouched (the model returns no new state) -/
-theorem evaluator_rejects (cfg : EvCfg) (st : EvState) (pre : Option String) (b : List Sample)
-    (h : stepOk cfg.mode b = false) : evStep cfg st pre b = none := by
-  simp [evStep, h]
+/-- a step with ONE well-shaped sample goes through: one decoded label and one decoded prediction are appended, and the
+    step metrics are those of that one sample -/
+theorem evaluator_accepts_one_sample (cfg : EvCfg) (st : EvState) (pre : Option String) (s : Sample)
+    (hw : wellShaped cfg.mode s = true) :
+    evStep cfg st pre [s] = some (⟨st.yTrue ++ [wrap16 (decodeTrue cfg.mode s)], st.yPred ++ [wrap16 (decodePred cfg.mode cfg.scale s)]⟩,
+      computeMetrics cfg [wrap16 (decodeTrue cfg.mode s)] [wrap16 (decodePred cfg.mode cfg.scale s)] pre cfg.stepCb) := by
+  rw [evStep_ok cfg st pre [s] (by rw [stepOk_singleton]; exact hw)]
+  rfl
 
-/-- batches of one sample are never admissible -/
-theorem stepOk_singleton (mode : Mode) (s : Sample) : stepOk mode [s] = false := by
-  simp [stepOk]
+/-- **What is still rejected**: `step` raises (the model returns no new state) exactly when some sample of the batch is
+    not well shaped -/
+theorem evaluator_rejects (cfg : EvCfg) (st : EvState) (pre : Option String) (b : List Sample) :
+    evStep cfg st pre b = none ↔ ∃ s ∈ b, wellShaped cfg.mode s = false := by
+  unfold evStep
+  by_cases h : stepOk cfg.mode b = true
+  · simp only [h, ↓reduceIte, reduceCtorEq, false_iff, not_exists, not_and, Bool.not_eq_false]
+    exact (stepOk_iff _ _).mp h
+  · simp only [h, Bool.false_eq_true, ↓reduceIte, true_iff]
+    have : ¬ ∀ s ∈ b, wellShaped cfg.mode s = true := fun hc => h ((stepOk_iff _ _).mpr hc)
+    simpa using this
 
-/-- **Batching invariance** (evaluator level): two admissible groupings of the same samples give the same
-    `compute` result — every metric, the callback's included. -/
+/-- … in particular a single score column in an arg-max mode (`(N,1)` outputs lose the class axis: `AxisError`),
+    whatever the batch size -/
+theorem evaluator_rejects_single_column (cfg : EvCfg) (hm : cfg.mode ≠ .binary) (st : EvState) (pre : Option String)
+    (b : List Sample) (s : Sample) (hs : s ∈ b) (hk : s.score.length < 2) : evStep cfg st pre b = none := by
+  rw [evaluator_rejects]
+  refine ⟨s, hs, ?_⟩
+  cases hmode : cfg.mode with
+  | binary => exact absurd hmode hm
+  | multiClass => simp [wellShaped]; omega
+  | categorical => simp [wellShaped]; omega
+
+/-- **Batching invariance** (evaluator level): ANY two groupings of the same well-shaped samples — batches of any
+    sizes, one-sample batches included — give the same `compute` result: every metric, the callback's included. -/
 theorem accuracy_batching_invariant (cfg : EvCfg) (pre pre' : Option String) (bs bs' : List (List Sample))
-    (hflat : bs.flatten = bs'.flatten)
-    (hok : ∀ b ∈ bs, stepOk cfg.mode b = true) (hok' : ∀ b ∈ bs', stepOk cfg.mode b = true) :
+    (hflat : bs.flatten = bs'.flatten) (hw : ∀ s ∈ bs.flatten, wellShaped cfg.mode s = true) :
     (evSteps cfg pre EvState.empty bs).map (fun st => evCompute cfg st pre')
       = (evSteps cfg pre EvState.empty bs').map (fun st => evCompute cfg st pre') := by
-  rw [evSteps_ok cfg pre bs EvState.empty hok, evSteps_ok cfg pre bs' EvState.empty hok', hflat]
+  rw [evSteps_ok cfg pre bs EvState.empty (grouping_admissible cfg.mode bs hw),
+    evSteps_ok cfg pre bs' EvState.empty (grouping_admissible cfg.mode bs' (hflat ▸ hw)), hflat]
+
+/-- … in particular feeding the samples one at a time gives the same result as any batching -/
+theorem accuracy_regroup_singletons (cfg : EvCfg) (pre pre' : Option String) (bs : List (List Sample))
+    (hw : ∀ s ∈ bs.flatten, wellShaped cfg.mode s = true) :
+    (evSteps cfg pre EvState.empty (bs.flatten.map (fun s => [s]))).map (fun st => evCompute cfg st pre')
+      = (evSteps cfg pre EvState.empty bs).map (fun st => evCompute cfg st pre') := by
+  have hf : ∀ l : List Sample, (l.map (fun s => [s])).flatten = l := by
+    intro l; induction l with
+    | nil => rfl
+    | cons a l ih => simp [ih]
+  exact (accuracy_batching_invariant cfg pre pre' bs _ (hf _).symm hw).symm
 
 /-! ### the history of `fit` -/
 
@@ -574,8 +634,12 @@ example : (evSteps cfgMC none EvState.empty
 /-- binary: 3/4 is above one half, 2/4 is not -/
 example : (evStep cfgBin EvState.empty none [⟨[1], [3]⟩, ⟨[1], [2]⟩]).map (·.1) = some ⟨[1, 1], [1, 0]⟩ := by decide
 
-/-- a batch of one sample is rejected -/
-example : evStep cfgMC EvState.empty none [⟨[1], [1, 5]⟩] = none := by decide
+/-- a batch of one sample goes through (fix a611d24); a single score column in an arg-max mode is still rejected -/
+example : (evStep cfgMC EvState.empty none [⟨[1], [1, 5]⟩]).map (·.1) = some ⟨[1], [1]⟩ := by decide +kernel
+example : evStep cfgMC EvState.empty none [⟨[0], [5]⟩, ⟨[0], [7]⟩] = none := by decide
+/-- one at a time or all at once: the same accuracy -/
+example : (evSteps cfgMC none EvState.empty [[⟨[1], [1, 5]⟩], [⟨[0], [3, 3]⟩], [⟨[0], [0, 9]⟩]]).map (fun st => (evCompute cfgMC st none).2)
+    = some [("accuracy", .frac 2 3)] := by decide +kernel
 
 /-- two epochs, two training batches of different sizes and one validation batch each, callback metric `n` -/
 example : (fitHist (some cfgBin) true EvState.empty
